@@ -37,7 +37,7 @@ class Deadline(Exception):
 
 class VT(object):
     __slots__ = ("name", "idx", "sem", "pending", "state", "os_thread", "fn", "exc", "result",
-                 "timekeeper", "background", "shim", "steps", "ident", "atomic")
+                 "timekeeper", "background", "shim", "steps", "ident", "atomic", "timed_out")
 
     def __init__(self, name, idx, fn):
         self.name = name
@@ -55,6 +55,7 @@ class VT(object):
         self.steps = 0
         self.ident = None
         self.atomic = 0           # >0: inside a section a harness declared atomic (no pre-emption)
+        self.timed_out = False    # its pending timed acquire has been given its timeout
 
     def __repr__(self):
         return "VT(%s)" % self.name
@@ -73,6 +74,8 @@ class Sched(object):
         self.events = []           # (thread name, label...) of executed visible operations
         self.steps = 0
         self.max_steps = max_steps
+        self.timed_wakeups = []          # (thread, lock, clock) of timed acquires that expired while nothing could move
+        self.max_timed_wakeups = 4
         self.clock = 0.0
         self.horizon = horizon
         self.eager_time = eager_time
@@ -152,7 +155,7 @@ class Sched(object):
         if getattr(vt, "atomic", 0) > 0:
             # inside a section the harness declared atomic: no pre-emption, unless the thread has to block
             k = op[0]
-            if k not in ("sleep", "until", "cond", "join", "start") and not (k == "acq" and op[1].held):
+            if k not in ("sleep", "until", "cond", "join", "start") and not (k in ("acq", "acqt") and op[1].held):
                 return vt
         vt.pending = op
         self.ctl.release()
@@ -177,6 +180,8 @@ class Sched(object):
             return vt.background or self.start_gate is None or bool(self.start_gate())
         if k == "acq":
             return not op[1].held
+        if k == "acqt":
+            return (not op[1].held) or vt.timed_out
         if k == "sleep" or k == "until":
             return self.clock >= op[1]
         if k == "join":
@@ -210,6 +215,14 @@ class Sched(object):
                     break
                 cands = [vt for vt in ready if self.is_enabled(vt)]
                 fg = [vt for vt in cands if not vt.background]
+                if not fg and len(self.timed_wakeups) < self.max_timed_wakeups:
+                    # nothing can move: a thread parked in a TIMED acquire (the library as it stands has none) gets its timeout
+                    tw = [vt for vt in ready if not vt.background and vt.pending[0] == "acqt" and vt.pending[1].held]
+                    if tw:
+                        vt = min(tw, key=lambda v: v.pending[2])
+                        vt.timed_out = True
+                        cands.append(vt)
+                        fg.append(vt)
                 adv = self.can_advance()
                 if not fg and not (adv and self.clock < self.horizon):
                     # background threads (timer daemon) may still have work that unblocks others:
@@ -340,7 +353,19 @@ class SchedLock(object):
             self.owner = s.me()
             s.emit("tryacq", s.name_of(self), True)
             return True
-        s.yield_point(("acq", self))
+        if timeout is not None and timeout >= 0:
+            vt = s.me()
+            vt.timed_out = False
+            s.yield_point(("acqt", self, s.clock + timeout))
+            if self.held:
+                # resumed by the timeout, not by a release: the thread runs although nothing has happened
+                vt.timed_out = False
+                s.timed_wakeups.append((vt.name, s.name_of(self), s.clock))
+                s.emit("acq_timeout", s.name_of(self))
+                return False
+            vt.timed_out = False
+        else:
+            s.yield_point(("acq", self))
         assert not self.held, "scheduler released a thread into a held lock"
         self.held = True
         self.owner = s.me()
